@@ -233,5 +233,5 @@ func drawColExact(t *rapid.T) colExactCase {
 }
 
 func TestColoringExact(t *testing.T) {
-	vk.Run(t, "coloring-exact", vk.Opts{Quick: 6000, Thorough: 150000, NoCrumb: true}, drawColExact, checkColExact)
+	vk.Run(t, "coloring-exact", vk.Opts{Quick: 6000, Thorough: 20000, NoCrumb: true}, drawColExact, checkColExact)
 }
